@@ -117,6 +117,13 @@ def r201(ctx, res, include_visualization: bool):
             for (cq, cr), callers in derived.items():
                 if cq.split(":")[-1] == f.function:
                     f.detail["callers affected (transitively)"] = sorted(set(callers))[:40]
+    seen_m = set()
+    for where_m, short_m, f_m, why_m in ef.memo_stores:
+        if (short_m, f_m) in seen_m:
+            continue
+        seen_m.add((short_m, f_m))
+        res.ob("R20.1", where_m, "%s stores `%s`" % (short_m, f_m), True,
+               "%s: initialised to None, written only behind its sentinel test, read by nothing but its accessors, cannot go stale" % why_m)
     res.count("functions analysed", n)
     res.count("declared in-place mutators", n_mut)
     ctx.require(res, "R20.1", n, 150, "functions")
@@ -233,6 +240,124 @@ COPY_HOOKS = {"__copy__", "__deepcopy__", "__reduce__", "__reduce_ex__", "__gets
               "__getnewargs_ex__"}
 
 
+def _immutable_tags(tags) -> bool:
+    from ..memo import _immutable
+    return _immutable(tags)
+
+
+def _elements(tags):
+    out = set()
+    for t in tags:
+        if isinstance(t, tuple) and t[0] in ("list", "tuple", "set", "iter"):
+            out |= set(t[1])
+        else:
+            return None
+    return out
+
+
+def verify_deepcopy_hook(ctx, res, c, h) -> None:
+    """__deepcopy__(self, memo) must be the structural deep copy written out: an instance made with __new__ (no
+    constructor side effects), every field of the class either deep-copied (copy.deepcopy(self.f, memo)), or shared
+    while its values are immutable, or a fresh container of immutable elements; the new instance is returned."""
+    eng = ctx.types
+    where = h.where()
+    if len(h.params) != 2:
+        raise AnalysisError("%s: __deepcopy__ must take (self, memo)" % where)
+    sn, memo = h.params
+    fields = set()
+    for k in c.mro():
+        fields |= {f for (cn, f) in eng.fields if cn == k.name}
+    body = [s_ for s_ in h.node.body if not (isinstance(s_, ast.Expr) and isinstance(s_.value, ast.Constant))]
+    for st in body:
+        if isinstance(st, ast.Return) and isinstance(st.value, ast.Name) and st.value.id == sn:
+            res.ob("R20.4", h.where(st), "%s.__deepcopy__" % c.name, False, "returns the object itself")
+            res.violation("R20.4", h, st, "%s.__deepcopy__ returns the object itself: a deep copy is the original, every in-place change "
+                          "shows through, and the owning constructors that deep-copy their arguments own nothing" % c.name,
+                          construct="%s.__deepcopy__ returns self" % c.name)
+            return
+    new = None
+    cls_names = {"%s.__class__" % sn, "type(%s)" % sn, c.name}
+    status: Dict[str, Tuple[str, ast.AST]] = {}
+    returned = False
+    for st in body:
+        if isinstance(st, ast.Assign) and len(st.targets) == 1 and isinstance(st.targets[0], ast.Name):
+            v = st.value
+            if txt(v) in ("%s.__class__" % sn, "type(%s)" % sn):
+                cls_names.add(st.targets[0].id)
+                continue
+            if isinstance(v, ast.Call) and isinstance(v.func, ast.Attribute) and v.func.attr == "__new__" and len(v.args) == 1 \
+                    and txt(v.func.value) in cls_names | {"object"} and txt(v.args[0]) in cls_names and new is None:
+                new = st.targets[0].id
+                continue
+            if txt(v) in ("copy.copy(%s)" % sn, "copy(%s)" % sn) and new is None:
+                # a shallow copy: a new instance whose fields all refer to the original's values, until overwritten
+                new = st.targets[0].id
+                for f in fields:
+                    status[f] = ("shared", st)
+                continue
+            raise AnalysisError("%s: unrecognised statement `%s` in %s.__deepcopy__" % (h.where(st), txt(st)[:60], c.name))
+        if new is None:
+            raise AnalysisError("%s: %s.__deepcopy__ does not start by creating the instance with __new__" % (h.where(st), c.name))
+        if isinstance(st, ast.Return):
+            returned = isinstance(st.value, ast.Name) and st.value.id == new
+            continue
+        if isinstance(st, ast.Assign) and len(st.targets) == 1:
+            t, v = st.targets[0], st.value
+            if isinstance(t, ast.Subscript) and isinstance(t.value, ast.Name) and t.value.id == memo:
+                continue  # memo[id(self)] = new
+            if txt(t) == "%s.__dict__" % new and txt(v) in ("dict(%s.__dict__)" % sn, "%s.__dict__.copy()" % sn):
+                for f in fields:
+                    status[f] = ("shared", st)
+                continue
+            if isinstance(t, ast.Attribute) and isinstance(t.value, ast.Name) and t.value.id == new:
+                f = t.attr
+                if isinstance(v, ast.Call) and txt(v.func) in ("copy.deepcopy", "deepcopy") and v.args and txt(v.args[0]) == "%s.%s" % (sn, f):
+                    status[f] = ("deep", st)
+                elif txt(v) == "%s.%s" % (sn, f):
+                    status[f] = ("shared", st)
+                elif (isinstance(v, ast.Call) and isinstance(v.func, ast.Name) and v.func.id in ("list", "tuple", "set", "dict") and len(v.args) == 1
+                      and txt(v.args[0]) == "%s.%s" % (sn, f)) or txt(v) in ("%s.%s[:]" % (sn, f), "%s.%s.copy()" % (sn, f)):
+                    status[f] = ("container", st)
+                else:
+                    raise AnalysisError("%s: `%s` in %s.__deepcopy__ is not a copy of the same field" % (h.where(st), txt(st)[:60], c.name))
+                continue
+        if isinstance(st, ast.Expr) and isinstance(st.value, ast.Call) and txt(st.value.func) == "%s.__dict__.update" % new \
+                and len(st.value.args) == 1 and txt(st.value.args[0]) == "%s.__dict__" % sn:
+            for f in fields:
+                status[f] = ("shared", st)
+            continue
+        raise AnalysisError("%s: unrecognised statement `%s` in %s.__deepcopy__" % (h.where(st), txt(st)[:60], c.name))
+    if new is None or not returned:
+        raise AnalysisError("%s: %s.__deepcopy__ does not return the instance it creates" % (where, c.name))
+    for f in sorted(fields):
+        ty = frozenset()
+        for k in c.mro():
+            ty |= eng.fields.get((k.name, f), frozenset())
+        kind, st = status.get(f, ("missing", h.node))
+        if kind == "deep":
+            ok, why = True, "deep-copied"
+        elif kind == "shared":
+            ok = _immutable_tags(ty)
+            why = "shared, its values are immutable (%s)" % show_tags(ty) if ok else \
+                "the copy refers to the SAME %s object as the original" % show_tags(ty)
+        elif kind == "container":
+            el = _elements(ty)
+            ok = el is not None and _immutable_tags(el)
+            why = "fresh container of immutable elements" if ok else "a fresh container whose elements (%s) are shared with the original" % show_tags(ty)
+        else:
+            ok, why = False, "the field is not copied at all: the copy lacks the attribute"
+        res.ob("R20.4", h.where(st), "%s.__deepcopy__: field %s" % (c.name, f), ok, why)
+        if not ok:
+            res.violation("R20.4", h, st, "%s.__deepcopy__ does not produce an independent copy: field `%s` -- %s; a later in-place change of "
+                          "the original (move) shows through the copy, and every owning constructor that deep-copies its arguments inherits the leak"
+                          % (c.name, f, why), construct="%s.__deepcopy__ field %s" % (c.name, f))
+
+
+def show_tags(ty) -> str:
+    from ..types import show
+    return show(ty)
+
+
 def r204(ctx, res):
     n = 0
     for c in ctx.repo.classes():
@@ -241,6 +366,8 @@ def r204(ctx, res):
         n += 1
         hooks = sorted(COPY_HOOKS & (set(c.methods) | set(c.method_aliases)))
         slots = "__slots__" in c.attrs
+        for hk in c.copy_hooks.values():
+            verify_deepcopy_hook(ctx, res, c, hk)
         ok = not hooks and not slots
         res.ob("R20.4", "%s:%d" % (c.module.relpath, c.node.lineno), c.name, ok,
                "plain attribute object: default deepcopy is structural" if ok else "defines %s" % (hooks + (["__slots__"] if slots else [])))
@@ -252,8 +379,12 @@ def r204(ctx, res):
             m = c.methods.get(mname)
             if m is None:
                 continue
+            from ..astutil import identity_fast_path_returns
+            fast = identity_fast_path_returns(m.node, m.params[0], m.params[1]) if len(m.params) >= 2 else set()
             for x in walk_local(m.node):
                 bad = None
+                if id(x) in fast:
+                    continue  # `if other is self: return True`: a reflexive fast path, two distinct objects are compared as before
                 if isinstance(x, ast.Compare) and any(isinstance(o, (ast.Is, ast.IsNot)) for o in x.ops) and not any(
                         isinstance(cc, ast.Constant) and cc.value is None for cc in x.comparators):
                     bad = txt(x)
